@@ -91,14 +91,9 @@ def run(ctx):
         ctx.add("C04.R1", "sta_rs::Message::generate#tag", ps == {"rnd"} and not rn,
                 "the tag must be a function of the client randomness only; depends on %s, rng %d" % (sorted(ps), len(rn)),
                 at, sample={"tag_depends_on": sorted(ps)})
-        # encryption key = key operand of the ciphertext transcript
-        ct = msg.args[1 + fidx(ctx, M, "ciphertext")]
-        encs = [x for x in Q.find_all(ct, lambda x: x.op == "owf" and x.args[0] == "send_enc")]
-        keys = []
-        for e in encs:
-            for k, d, _ in Q.flat_ops(Q.trace_of(e.args[1])):
-                if k == "key":
-                    keys.append(d)
+        # encryption key = the key argument handed to the payload cipher
+        ci = Q.calls(eng, "sta_rs::Ciphertext::new", in_fn="sta_rs::Message::generate")
+        keys = [e["argv"][0] for e in ci]
         ep = "mg.%d" % ie
         okk = bool(keys) and all(Q.params(Q.leaves(k)) == {"rnd", ep} and not Q.rngs(Q.leaves(k)) for k in keys)
         ctx.add("C04.R1", "sta_rs::Message::generate#enc-key", okk,
